@@ -217,6 +217,8 @@ class Repo:
                     if isinstance(t, ClassInfo):
                         c.bases.append(t)
         self.facade = self._facade()
+        self.renamed = {}
+        self._resolve_renames()
 
     # ------------------------------------------------------------------ index
     def _index(self, m):
@@ -348,6 +350,45 @@ class Repo:
             return ('global', m, head) if len(parts) == 1 else ('globalattr', m, parts)
         return None
 
+    # ---------------------------------------------------------------- renames
+    def _resolve_renames(self):
+        """A private helper known to the rules that no longer exists under its name, while exactly one
+        *new* private function of the same module/class with the same parameter names is called from
+        the helper's former callers, has been renamed: it keeps answering to the old key."""
+        spec = _known_spec()
+        known = set(spec.get('functions', []))
+        private = spec.get('private', {})
+        missing = [k for k in private if not self.has_func(k)]
+        if not missing:
+            return
+        new = [f for f in self.all_functions() if f.key not in known and not f.is_setter
+               and f.name.startswith('_') and not f.name.startswith('__')]
+        calls = {}
+        for key in missing:
+            mod, _, qual = key.partition('.')
+            owner = qual.rsplit('.', 1)[0] if '.' in qual else None
+            cands = []
+            for f in new:
+                if f.module.name != mod or (f.cls.name if f.cls else None) != owner:
+                    continue
+                if [p[0] for p in f.params()] != private[key]['params']:
+                    continue
+                callers = [c for c in private[key]['callers'] if self.has_func(c)]
+                hit = False
+                for c in callers:
+                    if c not in calls:
+                        calls[c] = callees_of(self, self.func(c))
+                    hit = hit or f.key in calls[c]
+                if hit or not callers:
+                    cands.append(f)
+            if len(cands) == 1:
+                f = cands[0]
+                self.renamed[key] = f.key
+                f.qualname = qual
+                f.module.functions[qual] = f
+                if f.cls is not None:
+                    f.cls.methods[qual.rsplit('.', 1)[1]] = f
+
     # ---------------------------------------------------------------- lookup
     def func(self, key):
         """'fourier.dft2' / 'plane.Plane.multiply' -> FuncInfo (AnchorMissing)."""
@@ -392,3 +433,49 @@ class Repo:
             if f.cls is not None and f.cls.name.startswith('_'):
                 continue
             yield f
+
+
+_KNOWN_SPEC = None
+
+
+def _known_spec():
+    global _KNOWN_SPEC
+    if _KNOWN_SPEC is None:
+        import json
+        path = os.path.join(os.path.dirname(os.path.dirname(os.path.abspath(__file__))), 'specs', 'known_functions.json')
+        try:
+            with open(path) as fh:
+                _KNOWN_SPEC = json.load(fh)
+        except OSError:
+            _KNOWN_SPEC = {}
+    return _KNOWN_SPEC
+
+
+def callees_of(repo, f):
+    """Keys of the package functions called (by resolvable name) in the body of f."""
+    out = set()
+    m = f.module
+    selfname = f.params()[0][0] if f.cls is not None and f.params() and not f.is_static else None
+    for node in ast.walk(f.node):
+        if not isinstance(node, ast.Call):
+            continue
+        d = _dotted(node.func)
+        if d is None:
+            continue
+        parts = d.split('.')
+        if selfname and parts[0] == selfname and len(parts) == 2 and f.cls is not None:
+            t = f.cls.find_method(parts[1]) if hasattr(f.cls, 'find_method') else None
+            if isinstance(t, FuncInfo):
+                out.add(t.key)
+            continue
+        try:
+            t = repo.resolve_name(m, d)
+        except Exception:
+            t = None
+        if isinstance(t, FuncInfo):
+            out.add(t.key)
+        elif isinstance(t, ClassInfo):
+            init = t.find_method('__init__') if hasattr(t, 'find_method') else None
+            if isinstance(init, FuncInfo):
+                out.add(init.key)
+    return out
